@@ -296,6 +296,7 @@ func curGID() int64 {
 type gdump struct {
 	id    int64
 	state string
+	mins  int // "N minutes" in the header: the runtime's own lower bound of how long this wait has lasted without a wake-up
 	top   string // top-most gocql frame
 	all   string
 }
@@ -316,6 +317,12 @@ func dumpGoroutines() map[int64]gdump {
 		j := strings.LastIndex(lines[0], "]")
 		if i >= 0 && j > i {
 			g.state = lines[0][i+1 : j]
+			for _, part := range strings.Split(g.state, ",") {
+				var m int
+				if n, _ := fmt.Sscanf(strings.TrimSpace(part), "%d minutes", &m); n == 1 {
+					g.mins = m
+				}
+			}
 			if k := strings.Index(g.state, ","); k >= 0 {
 				g.state = g.state[:k]
 			}
@@ -500,6 +507,45 @@ func (c *Ctx) handleStall(i int) {
 				fmt.Sprintf("%s did not return: goroutine blocked [%s] in %s, no harness I/O or hook activity for 8 s", g.name, g2.state, g2.top),
 				map[string]interface{}{"goroutines": full})
 			reported = true
+		}
+	}
+	if !reported {
+		// Background activity (heartbeats, reconnects) can go on while one caller is stuck for good. Second
+		// criterion, per goroutine: the guarded call sits in the same wait in both dumps, and after a forced GC
+		// (which stamps every waiting goroutine) and another 62 s the runtime itself reports that this wait has
+		// lasted "1 minutes" or more without a single wake-up - with every driver timeout of these scenarios
+		// far below that.
+		var cands []*guard
+		for _, g := range gs {
+			g1, ok1 := d1[g.gid]
+			g2, ok2 := d2[g.gid]
+			if ok1 && ok2 && g1.top == g2.top && g1.state == g2.state && g2.top != "" && g2.state != "running" && g2.state != "runnable" {
+				cands = append(cands, g)
+			}
+		}
+		if len(cands) > 0 {
+			runtime.GC()
+			time.Sleep(62 * time.Second)
+			d3 := dumpGoroutines()
+			full3 := ""
+			for _, g := range d3 {
+				if strings.Contains(g.all, "github.com/gocql/gocql") {
+					full3 += g.all + "\n\n"
+				}
+			}
+			if len(full3) > 200000 {
+				full3 = full3[:200000]
+			}
+			for _, g := range cands {
+				g2 := d2[g.gid]
+				g3, ok := d3[g.gid]
+				if ok && g3.top == g2.top && g3.state == g2.state && g3.mins >= 1 {
+					c.Violation(fmt.Sprintf("%s:hang:%s:%s", c.Prop, g.name, g3.top),
+						fmt.Sprintf("%s did not return: goroutine blocked [%s] in %s for %d minute(s) without a wake-up (Go runtime wait time), while other goroutines went on", g.name, g3.state, g3.top, g3.mins),
+						map[string]interface{}{"goroutines": full3})
+					reported = true
+				}
+			}
 		}
 	}
 	if !reported {
